@@ -33,6 +33,8 @@ import (
 	"go/constant"
 	"go/token"
 	"go/types"
+	"regexp"
+	"sort"
 	"strings"
 
 	"golang.org/x/tools/go/packages"
@@ -83,6 +85,45 @@ func (s *aggqSkel) csrc(n ast.Node) string {
 	}
 	var undo []saved
 	info := s.t.pkg.TypesInfo
+	// a struct literal with field names: the order in which the fields are written is immaterial when no value
+	// contains a call (nothing is evaluated in that order); print the fields sorted by name
+	type savedElts struct {
+		lit  *ast.CompositeLit
+		elts []ast.Expr
+	}
+	var undoElts []savedElts
+	ast.Inspect(n, func(c ast.Node) bool {
+		cl, ok := c.(*ast.CompositeLit)
+		if !ok || len(cl.Elts) < 2 {
+			return true
+		}
+		for _, e := range cl.Elts {
+			kv, isKV := e.(*ast.KeyValueExpr)
+			if !isKV {
+				return true
+			}
+			if _, isID := kv.Key.(*ast.Ident); !isID || aggqHasCall(kv.Value) {
+				return true
+			}
+			if tv, okT := info.Types[cl]; !okT || tv.Type == nil {
+				return true
+			} else if _, isStruct := tv.Type.Underlying().(*types.Struct); !isStruct {
+				return true
+			}
+		}
+		sorted := append([]ast.Expr(nil), cl.Elts...)
+		sort.SliceStable(sorted, func(i, j int) bool {
+			return sorted[i].(*ast.KeyValueExpr).Key.(*ast.Ident).Name < sorted[j].(*ast.KeyValueExpr).Key.(*ast.Ident).Name
+		})
+		undoElts = append(undoElts, savedElts{cl, cl.Elts})
+		cl.Elts = sorted
+		return true
+	})
+	defer func() {
+		for _, u := range undoElts {
+			u.lit.Elts = u.elts
+		}
+	}()
 	ast.Inspect(n, func(c ast.Node) bool {
 		id, ok := c.(*ast.Ident)
 		if !ok {
@@ -264,10 +305,35 @@ func (s *aggqSkel) block(list []ast.Stmt) string { return "{" + strings.Join(s.s
 
 func (s *aggqSkel) stmts(list []ast.Stmt) []string {
 	var out []string
-	for _, st := range list {
-		out = append(out, s.stmt(st)...)
+	for i := 0; i < len(list); i++ {
+		// a run of adjacent `go` statements: which goroutine is started first is not observable (none of them has
+		// run when the next one is started); canonical order
+		if _, isGo := list[i].(*ast.GoStmt); isGo {
+			var run []string
+			for ; i < len(list); i++ {
+				if _, ok := list[i].(*ast.GoStmt); !ok {
+					break
+				}
+				run = append(run, s.stmt(list[i])...)
+			}
+			i--
+			aggqSortCanon(run)
+			out = append(out, run...)
+			continue
+		}
+		out = append(out, s.stmt(list[i])...)
 	}
 	return out
+}
+
+var aggqPlaceholderRe = regexp.MustCompile(`@@\d+@@`)
+
+// aggqSortCanon: stable sort by the text with the placeholders of function-local names masked (their numbers
+// depend on the order of traversal, i.e. on the source order that is to be forgotten)
+func aggqSortCanon(items []string) {
+	sort.SliceStable(items, func(i, j int) bool {
+		return aggqPlaceholderRe.ReplaceAllString(items[i], "@") < aggqPlaceholderRe.ReplaceAllString(items[j], "@")
+	})
 }
 
 func (s *aggqSkel) stmt(st ast.Stmt) []string {
@@ -327,6 +393,9 @@ func (s *aggqSkel) stmt(st ast.Stmt) []string {
 			}
 			cs = append(cs, head+":"+s.block(cc.Body))
 		}
+		// the cases of a select have no order (Go picks among the ready ones at random; `default` wherever it is
+		// written): present them in a canonical order, so that reordering them in the source changes nothing
+		aggqSortCanon(cs)
 		return []string{"select{" + strings.Join(cs, " ") + "}"}
 	case *ast.SwitchStmt:
 		var pre []string
@@ -534,6 +603,7 @@ func aggqExtra(t *tr) string {
 	aggqEmit(&b, t, "jsonFlush", "jsonEncoder", "Flush", "core/aggregator/jsonlines.go")
 	aggqEmit(&b, t, "newJSONLinesAggregator", "", "NewJSONLinesAggregator", "core/aggregator/jsonlines.go")
 	aggqEmit(&b, t, "newJSONEncoder", "", "NewJSONEncoder", "core/aggregator/jsonlines.go")
+	aggqErrFacts(&b, t)
 
 	// ---- core/datasink
 	{
